@@ -41,6 +41,18 @@ CHECKS.update({
    note='Trusted: as C01/C02. Bounds: span length LAGS+LEADS+1..+3 for (b)/(d), max_iter<=2. Fortran engine and verbatim code outside.'),
 })
 
+CHECKS.update({
+ 'C14': dict(cat='translation_validation', ref='4/C14', tech='per (script, layout): generated _evaluate executed symbolically (z3 arrays, symbolic t, L) against the layout-independent AST reference; concrete symbol-tuple, statement-independence, permutation and fixed-point assertions',
+   text='For every program of the pool and every layout of a catalogue of 10 (whitespace at operator/brace/angle/index/parenthesis boundaries, tabs, [0] and [+k] indexes, parenthesise-and-break, comments, blank lines) z3 shows the generated code equivalent to the same reference AST for all cells, t, L - so all layouts are equivalent to each other; symbol names/types/lags/leads across layouts, parse(script) = merge of per-statement parses, permutation and the fixed point of the normal form are concrete program-level assertions.',
+   note='Trusted: as C01; renderer self-checked against Python ast per (program, layout). Program and layout dimensions enumerated. Scripts where < and > comparisons could be read as an <error> term are skipped and counted.'),
+ 'C15': dict(cat='translation_validation', ref='4/C15', tech='per (script, build variant): the variant class _evaluate executed symbolically and compared by z3 array equality with the AST reference (wrapper converter: store-only-if-positive semantics); concrete attribute / converter bookkeeping assertions',
+   text='build_model, exec of build_model_definition text, exec of Model.CODE, typed/untyped templates, identity-on-code and the documented wrapping converter are each shown by z3 to compute the reference semantics for all cells, t, L on every program of the pool, hence to be pairwise identical; class attributes, lags/leads/min_* settings, converter call count and order, verbatim insertion and the empty symbol list are concrete assertions.',
+   note='Trusted: as C01. Wrapper converter explored on programs with few joint paths only (one extra fork per equation).'),
+ 'C20': dict(cat='translation_validation', ref='4/C20', tech='symbolic execution of each Symbol.code in isolation on z3 arrays: LIA check that every access lies on a graph edge, z3 non-interference query for non-edge cells, path-reachability of every edge; concrete comparison of nodes/edges with AST dependency sets',
+   text='Per enumerated program: symbols_to_graph nodes, equation attributes and variable-like edges equal the AST dependency sets (concrete); for every equation z3 shows over all cells, t, L that evaluation accesses only cells with an edge into y, that perturbing a cell without an edge cannot change y (non-interference, up to 3/6 probes per equation), and that every edge the script itself can reach is read on some feasible path.',
+   note='Trusted: as C01. Edges inside branches no data can reach (e.g. a if X > X else b) are dead in the script and exempt from the is-read clause.'),
+})
+
 NOT_APPLICABLE = [
  ('C11', 'Independence of copies is a statement about object identity in the CPython heap; there is no input value to make symbolic, so a solver has nothing to decide (pointer-rich heaps are a weak target of the technique).'),
  ('C13', "Quantifies over strings only; everything it depends on sits behind CPython's re engine (look-ahead, \\b, lazy quantifiers, alternative priority), str.format and exec, none of which can be executed symbolically here (z3 regex theory lacks them; CrossHair's regex model is unsound on term_re and times out on split_equations)."),
